@@ -422,6 +422,13 @@ theorem mint_refines (st : State) (a : Addr) (ts : Token.State) (tid name symbol
   · right; simp [asTok, hown, hauth, hm]
 
 /-! ### non-vacuity (the service model RUN in the kernel on a concrete history, toy hash) -/
+/-- the owner's administrative step — upgrade of the service to the same code and migration — changes no balance, no custody, no
+    registry entry and no trust setting, whether it is accepted or refused (the history theorems above range over it) -/
+theorem admin_step_changes_nothing (st : State) (auths : List Addr) :
+    (step H S k st (.upgradeMigrate auths)).1 = st ∧
+    ((step H S k st (.upgradeMigrate auths)).2 = .ok [] ∨ (step H S k st (.upgradeMigrate auths)).2 = .err .unauthorized) :=
+  ⟨step_upgradeMigrate_fst H S k st auths, step_upgradeMigrate_snd H S k st auths⟩
+
 section NonVacuity
 open Cgp.Toy
 
